@@ -20,7 +20,7 @@ _WEIGHTS = [
     ('ready0', 4), ('ready1', 9),
     ('exit', 8), ('tomb', 6), ('tomb_term', 4), ('monitor', 9),
     ('monitor_restart', 4), ('fault', 5), ('finish_replace', 5),
-    ('clean', 9), ('late_created', 4), ('midsync', 4),
+    ('clean', 9), ('late_created', 4), ('midsync', 4), ('midsync_monitor', 6),
     ('restart', 7), ('node_start', 2),
 ]
 
@@ -269,6 +269,35 @@ class Gen:
                 if rng.random() < 0.7:
                     ops += [('ready', 1), ('drain',)]       # the next heartbeat
                 return ops
+            if kind == 'midsync_monitor':
+                # two processes, file operation by file operation: the container of a cached instance ends while the
+                # manager is inactive (restarted, or the cache not ready); its tombstone is there when the readiness
+                # event arrives, and the node monitor hands the container to cleanup (its atomic rename
+                # running/<instance> -> cleanup/<instance>) right before the k-th look the manager takes at the file
+                # system inside the synchronisation.  Everything older is settled first (events, tombstones, cleanups).
+                target = node.running_target(inst)
+                if not cached or target is None or inst in node.pending_exit or target in node.ended:
+                    continue
+                have = drv.read_marker(node.cache_path(inst))
+                runs = drv.read_marker(os.path.join(node.apps_dir, target, 'data', 'manifest.yml'))
+                if have is None or runs is None or have[:2] != runs[:2]:
+                    continue
+                self._composite = True
+                how = rng.choice(('exitinfo', 'exitinfo', 'aborted', 'oom', 'sigabrt', 'sigabrt'))
+                n_apps = len(os.listdir(node.apps_dir))
+                ops = [('drain',), ('fault', 'svscan', 0), ('fault', 'service', 0), ('monitor',), ('clean_all',),
+                       ('restart',) if rng.random() < 0.5 else ('ready', 0), ('drain',)]
+                others = [i for i in self.insts if i != inst]
+                for other in others[:2]:
+                    # the cache may change while the manager is inactive (more containers for the synchronisation)
+                    if not os.path.exists(node.cache_path(other)) and rng.random() < 0.5:
+                        ops.append(('put', other, self._new_gen(), False, _shape(rng)))
+                ops += [('exit', inst, how), ('tomb', inst),
+                        ('midsync_monitor', rng.randrange(1, 3 * n_apps + 3)), ('ready', 1), ('drain',),
+                        ('midsync_monitor', 0)]
+                if rng.random() < 0.5:
+                    ops += [('ready', 1), ('drain',)]       # the next heartbeat
+                return ops
             if kind == 'late_created':
                 # an instance is placed right after the cache became ready: the synchronisation triggered by .ready
                 # configures it before its own created event is read; the container ends, is handed to cleanup
@@ -399,7 +428,7 @@ class Run:
                 self.count('manager_crashes_on_cache_entry_vanished_during_sync')
             else:
                 self.count('manager_crashes_on_s6_failure')
-            ok = self._after('manager-crash', crash.where)
+            ok = self._after('manager-crash', crash.where, tombs=self._midsync_tombs())
             node.restart_manager()
             return ok
         if ev is None:
@@ -422,7 +451,27 @@ class Run:
             if not any(h == '_synchronize' for h, _a in fakes.call_log()):
                 self.count('syncs_expected_but_not_observed')
         return self._after('manager', '_on_%s' % ev[0], event=ev, sync=sync,
-                           active=before_active)
+                           active=before_active, tombs=self._midsync_tombs())
+
+    def _midsync_tombs(self):
+        """What the node monitor executed inside the synchronisation of this step (it was given the CPU right before
+        one of the manager's looks at the file system)."""
+        node = self.node
+        tombs = node.take_midsync_tombs()
+        looks = [h for h in fakes.fault_hits() if h[0] == 'midsync_actor']
+        if looks:
+            self.count('midsync_monitor_ran_inside_synchronisation')
+        for tid, _stamp, _nth, _res, owner, target, _origin in tombs:
+            self.count('midsync_tombstones_executed')
+            if target is not None and target == owner:
+                self.count('midsync_container_handed_to_cleanup_inside_synchronisation')
+                self.flags.add('handed-to-cleanup-inside-sync')
+                for _h, _stack, fn, path in looks:
+                    where = os.path.basename(os.path.dirname(path))
+                    if os.path.basename(path) in (tid, owner):
+                        self.count('midsync_handover_right_before_a_look_at_its_%s_link' % where)
+                    self.count('midsync_handover_before_%s' % fn.replace('.', '_'))
+        return tombs
 
     def apply(self, op):
         """Returns False when the case must stop (violation)."""
@@ -492,6 +541,11 @@ class Run:
                 fakes.arm_fault(op[1], op[2])
                 if op[2]:
                     self.count('faults_armed_%s' % op[1])
+                return True
+            if kind == 'midsync_monitor':
+                node.arm_midsync_monitor(op[1])
+                if op[1]:
+                    self.count('midsync_monitor_armed')
                 return True
             if kind == 'monitor_restart':
                 node.start_monitor()
